@@ -175,6 +175,22 @@ func fillExact(c *propCarrier, total int) ([]byte, bool) {
 			return cat(bytes.Repeat(unit, j), last), true
 		}
 	}
+	// a second string of adjustable size brings the last length into the "nice" range quickly
+	for j := 0; j < 40; j++ {
+		for extra := 0x0101; extra <= 0x017f; extra++ {
+			rest := total - j*len(unit) - (3 + extra)
+			if rest <= 0 {
+				break
+			}
+			if last, ok := nulFreeProp(sid, rest); ok && propKind(sid) != 'u' {
+				mid, _ := nulFreeProp(sid, 3+extra)
+				return cat(bytes.Repeat(unit, j), mid, last), true
+			}
+		}
+	}
+	if total > 1200 {
+		return nil, false // thousands of tiny properties would only slow the model down
+	}
 	// small totals: fixed-size properties (identifier followed by 01 bytes), two sizes combined
 	var fixed [][]byte
 	for _, id := range c.ids {
